@@ -302,6 +302,18 @@ static int sch_pokdl(sess_t *s) {
 			return 1;
 		case 2: {
 			int ok = 1;
+			fault_t *fr = find_fault(s, "forge");
+			if (fr && !strcmp(fr->kind, "v_relkey")) {
+				/* an accepted proof adapted to a related statement without the witness: Y' = Y + [d]G, r' = r - c d.
+				 * The commitment T = [r]G + [c]Y stays what it was; only a challenge that binds Y tells them apart */
+				bn_set_dig(s->b[3], (dig_t)(1 + fr->a % 1000));
+				ec_mul_gen(s->e[1], s->b[3]);
+				ec_add(s->e[0], s->e[0], s->e[1]); ec_norm(s->e[0], s->e[0]);
+				bn_mul(s->b[3], s->b[3], s->b[1]); bn_mod(s->b[3], s->b[3], ord);
+				bn_sub(s->b[2], s->b[2], s->b[3]);
+				if (bn_sign(s->b[2]) == RLC_NEG) bn_add(s->b[2], s->b[2], ord);
+				tr_printf("NOTE %d related-key-adapted\n", s->sid);
+			}
 			ok &= xmit_ec(s, "y", s->e[5], s->e[0], (int)s->opt[1]);
 			ok &= xmit_bn(s, "c", s->b[12], s->b[1], 0);
 			ok &= xmit_bn(s, "r", s->b[13], s->b[2], 0);
